@@ -51,18 +51,21 @@ package casblob
 //@ func GetUncompressedReadCloser(zstd zstdimpl.ZstdImpl, f *os.File, expectedSize int64, offset int64) (io.ReadCloser, error)
 //@   serves C02 C14 C20
 //@   requires f != nil && zstd != nil
+//@   modifies ioState()
 //@   requires[C02] offset: offset == 0 || (0 < offset && offset < expectedSize)
 //@   ensures[C14] oneof: (result1 == nil) <==> (result0 != nil)
 
 //@ func GetZstdReadCloser(zstd zstdimpl.ZstdImpl, f *os.File, expectedSize int64, offset int64) (io.ReadCloser, error)
 //@   serves C02 C14 C20
 //@   requires f != nil && zstd != nil
+//@   modifies ioState()
 //@   requires[C02] offset: offset == 0 || (0 < offset && offset < expectedSize)
 //@   ensures[C14] oneof: (result1 == nil) <==> (result0 != nil)
 
 //@ func GetLegacyZstdReadCloser(zstd zstdimpl.ZstdImpl, f *os.File) (io.ReadCloser, error)
 //@   trusted
 //@   requires f != nil && zstd != nil
+//@   modifies ioState()
 //@   ensures (result1 == nil) <==> (result0 != nil)
 
 // The published header layout (C20): seven little-endian fields in this order and with these
@@ -89,7 +92,7 @@ package casblob
 // and was followed by an fsync. The compressed bytes themselves are not modelled.
 //@ func WriteAndClose(zstd zstdimpl.ZstdImpl, r io.Reader, f *os.File, t CompressionType, hash string, size int64) (int64, error)
 //@   serves C01 C08 C14 C20
-//@   requires zstd != nil && r != nil && f != nil && size <= 140737488355328
+//@   requires zstd != nil && r != nil && f != nil && size <= FMAX()
 //@   modifies ioState()
 //@   ensures[C01] positive: result1 == nil ==> (size > 0 && 0 <= result0 && result0 <= B62())
 //@   ensures[C01] length: (result1 == nil && t == 1) ==> (rdN == old(rdN) + size && rdEOF)
@@ -97,13 +100,13 @@ package casblob
 //@   ensures[C08] durable: (result1 == nil && t == 1) ==> (fsyncN == old(fsyncN) + 1 && bwN == old(bwN) + 8)
 //@   ensures[C20] minsize: (result1 == nil && t == 1) ==> result0 >= 29 + 8 * (nChunks(size, 1048576) + 1)
 //@   call Get#0 assumes pool: istype(result, "*[]byte") && payload(result) != 0 && len(deref(as(result, "*[]byte"))) == 1048576 && arr(deref(as(result, "*[]byte"))) != 0 && !old(allocated(payload(result))) && !old(allocated(arr(deref(as(result, "*[]byte")))))
-//@   call EncodeAll#0 assumes bound: len(result) <= 2 * len(arg1) + 1024
+//@   call EncodeAll#0 assumes bound: len(result) <= len(arg1) + len(arg1) / 256 + 1024
 //@   call write#0 asserts[C20] header: h.uncompressedSize == size && h.compression == t && h.chunkSize == 1048576 && len(h.chunkOffsets) == (t == 1 ? nChunks(size, 1048576) : 1) + 1
 //@   loop 0 invariant idx: 0 <= nextChunk && nextChunk <= len(h.chunkOffsets) - 1 && len(h.chunkOffsets) == numOffsets && len(uncompressedChunk) == 1048576 && arr(uncompressedChunk) != 0
 //@   loop 0 invariant[C01] remaining: 0 <= remainingRawData && remainingRawData <= size && (t == 1 ==> remainingRawData == (size > nextChunk * 1048576 ? size - nextChunk * 1048576 : 0))
 //@   loop 0 invariant[C01] consumed: rdN == old(rdN) + size - remainingRawData && rdStream == scat(old(rdStream), hStream)
 //@   loop 0 invariant[C08] notyet: bwN == old(bwN) + 7 && fsyncN == old(fsyncN)
-//@   loop 0 invariant[C20] offs: 29 + 8 * numOffsets <= fileOffset && fileOffset <= 29 + 8 * numOffsets + nextChunk * 2098176
+//@   loop 0 invariant[C20] offs: 29 + 8 * numOffsets <= fileOffset && fileOffset <= 29 + 8 * numOffsets + nextChunk * 1053696
 //@   loop 0 modifies ioState(), elems(uncompressedChunk), elems(h.chunkOffsets)
 //@   call Seek#0 asserts[C01,C08] verified: t == 1 ==> (rdN == old(rdN) + size && rdEOF && rdStream == scat(old(rdStream), hStream) && hash == hexsum(hStream) && nextChunk == len(h.chunkOffsets) - 1)
 //@   call Seek#0 asserts[C20] tablepos: arg1 == 29 && arg2 == 0
